@@ -7,6 +7,7 @@ from common import Failure, q, coq_list
 ID = "C19"
 GEN = ["gen_centrality", "gen_centrality_methods"]
 EXTRA_PROPERTY_FILES = ["SrcCentrality"]     # CentralityClasses.py method bodies regenerated and proved equal to Model/Centrality.v
+SOURCE_TIE_NOTE = 'see LEVEL_NOTE (gen_centrality_methods, Properties/SrcCentrality.v, 9 theorems)'
 ALLOWED_AXIOMS = []
 MODEL_INDEPENDENT_OF_PROOFS = True      # Model/Centrality.v contains no proofs: it still runs when a theorem breaks
 TRUSTED = [
